@@ -215,9 +215,24 @@ func (x *Unit) contractCtx(st *State, fr *frame) *specCtx {
 		}
 		c.names[v.Name()] = x.readVar(st, v)
 	}
-	bind(x.sig.Recv())
+	bindParam := bind
+	if fr != nil && x.entry != nil {
+		// In an exit clause a parameter name means the value the caller passed (parameters are the callee's own variables:
+		// what it assigns to them is invisible to the caller, which reads the clause with its arguments).
+		bindParam = func(v *types.Var) {
+			if v == nil || v.Name() == "" || v.Name() == "_" {
+				return
+			}
+			if ev, ok := x.entry.env[v]; ok {
+				c.names[v.Name()] = ev
+				return
+			}
+			c.names[v.Name()] = x.readVar(st, v)
+		}
+	}
+	bindParam(x.sig.Recv())
 	for i := 0; i < x.sig.Params().Len(); i++ {
-		bind(x.sig.Params().At(i))
+		bindParam(x.sig.Params().At(i))
 	}
 	if fr != nil {
 		for i, o := range fr.results {
